@@ -204,6 +204,8 @@ def run(chk):
             cache["r"] = oracle(chk)
         return cache["r"]
 
+    chk.default_found = found
+
     for cls in ARRAYS:
         try:
             check_class(chk, ex, cls, found)
